@@ -182,6 +182,73 @@ def _uses(b):
     return uses
 
 
+DISCARD_SINKS = ("std::mem::drop", "std::result::Result::ok", "std::result::Result::err", "std::result::Result::is_ok", "std::result::Result::is_err", "std::result::Result::unwrap_or_default", "std::result::Result::unwrap_or", "std::option::Option::is_some", "std::option::Option::is_none", "std::mem::forget")
+
+
+def _use_sites(b):
+    if hasattr(b, "_use_sites"):
+        return b._use_sites
+    sites = defaultdict(list)
+    for bb in b.live_blocks():
+        blk = b.blocks[bb]
+        for si, st in enumerate(blk["stmts"]):
+            if st["k"] == "assign":
+                rv = st["rv"]
+                ops = []
+                k = rv["k"]
+                if k in ("use", "cast", "repeat"):
+                    ops = [rv["op"]]
+                elif k == "bin":
+                    ops = [rv["a"], rv["b"]]
+                elif k == "un":
+                    ops = [rv["a"]]
+                elif k == "agg":
+                    ops = rv["ops"]
+                for o in ops:
+                    if o and o.get("k") in ("copy", "move"):
+                        whole = not o["pl"]["p"]
+                        sites[o["pl"]["l"]].append(("assign", bb, st["pl"]["l"] if (whole and not st["pl"]["p"] and k == "use") else None))
+                if k in ("ref", "copyderef", "rawptr", "discr"):
+                    sites[rv["pl"]["l"]].append(("place", bb, st["pl"]["l"] if (k == "ref" and not rv["pl"]["p"] and not st["pl"]["p"]) else None))
+        t = blk["term"]
+        if not t:
+            continue
+        if t["k"] == "call":
+            for a in t["args"]:
+                if a.get("k") in ("copy", "move"):
+                    sites[a["pl"]["l"]].append(("call", bb, None))
+        elif t["k"] == "switch" and t["op"].get("k") in ("copy", "move"):
+            sites[t["op"]["pl"]["l"]].append(("switch", bb, None))
+        elif t["k"] == "yield" and t["val"].get("k") in ("copy", "move"):
+            sites[t["val"]["pl"]["l"]].append(("yield", bb, None))
+    b._use_sites = sites
+    return sites
+
+
+def _effectively_used(b, local, depth):
+    """is the value in `local` examined or passed on, other than into a sink that discards it?"""
+    if depth > 6:
+        return True
+    for kind, bb, fwd in _use_sites(b).get(local, []):
+        if kind == "call":
+            t = b.term(bb)
+            cn = strip_generics(t.get("callee")) or ""
+            if cn in DISCARD_SINKS:
+                d = t["dest"]
+                # the sink's own result must be used for the value to count as examined
+                if cn in ("std::mem::drop", "std::mem::forget"):
+                    continue
+                if d["l"] != 0 and not d["p"] and not _effectively_used(b, d["l"], depth + 1):
+                    continue
+            return True
+        if kind in ("assign", "place") and fwd is not None:
+            if fwd == 0 or _effectively_used(b, fwd, depth + 1):
+                return True
+            continue
+        return True
+    return False
+
+
 ERR_TYPES = ("std::io::Error", "bincode::ErrorKind", "storage::bitcask::Error")
 
 
@@ -204,7 +271,7 @@ def e1_no_dropped_result(ctx):
                 continue
             n += 1
             d = t["dest"]
-            used = d["l"] == 0 or uses.get(d["l"], 0) > 0 or bool(d["p"])
+            used = d["l"] == 0 or bool(d["p"]) or _effectively_used(b, d["l"], 0)
             r.add(fam_name(b), "result of %s is used" % cn.split("::")[-1], used, where(b, bb), "" if used else "the Result is discarded (`let _ =` / statement expression): an I/O error would go unreported")
     return r
 
